@@ -217,7 +217,20 @@ pub fn rel_b() -> RelB {
 // ---------------------------------------------------------------------------------------------
 
 pub fn fam_cfg(which: usize, seed: u64) -> Result<Config, String> {
-    let p = if which == 0 { FamParams::rich(2, 2) } else { FamParams::rich(1, 2) };
+    // fam0: every argument kind (constraint-system degree 5, quotient degree 4 = 2^2);
+    // fam1: no lookups and a cubic main gate: constraint-system degree 4, so the quotient degree
+    // (3) is not a power of two and the extended domain needs ceil(log2 3) = 2 extra bits — the
+    // header sweep over `k` then crosses the boundary where floor and ceiling differ.
+    let p = if which == 0 {
+        FamParams::rich(2, 2)
+    } else {
+        let mut p = FamParams::rich(1, 2);
+        p.gate_deg = 3;
+        p.lookup = false;
+        p.lookup_any = false;
+        p.lookup_nz = false;
+        p
+    };
     let k = lattice::min_k(&p, false, seed).ok_or("fam circuit does not fit")?;
     Ok(Config {
         p,
